@@ -8,7 +8,7 @@ import (
 
 func replayOther(t *testing.T, env *vstat.Envelope, p string) {
 	switch env.Test {
-	case "TestC04Redis":
+	case "TestC04Redis", "TestC04SharedFail":
 		var c StressCase
 		if _, err := vstat.LoadReplay(p, &c); err != nil {
 			t.Fatalf("cannot decode %s: %v", p, err)
